@@ -4,6 +4,12 @@
 
 #[cfg(kani)]
 pub mod c03;
+#[cfg(kani)]
+pub mod c19;
+#[cfg(kani)]
+pub mod c17;
+#[cfg(kani)]
+pub mod c12;
 
 // Filled in by bin/check with Kani's concrete-playback test when a counterexample is replayed
 // natively; empty between runs.
